@@ -284,6 +284,19 @@ func methodBody(m *SMethod, body *ast.BlockStmt) {
 	})
 }
 
+var fixedMethods = map[string]bool{"WithTx": true, "Close": true, "exec": true, "query": true, "queryRow": true}
+
+// queryMethods: the methods generated from annotated statements (template-fixed helpers excluded)
+func (s PkgSummary) queryMethods() []SMethod {
+	var out []SMethod
+	for _, m := range s.Methods {
+		if !fixedMethods[m.Name] {
+			out = append(out, m)
+		}
+	}
+	return out
+}
+
 func (s PkgSummary) structNamed(n string) *SStruct {
 	for i := range s.Structs {
 		if s.Structs[i].Name == n {
